@@ -28,6 +28,7 @@ _FIXED = {
     'Unterminated string!': 'str_eof',
 }
 _BAD_CHAR = re.compile(r'\AUnexpected character "(.)"!\Z', re.S)
+_EXPECT = re.compile(r'\AExpected Token\.(\w+), but got Token\.(\w+)!\Z')
 _STAR_EOF = re.compile(r'\AUnclosed /\* comment \(starting on line (\d+)\)!\Z')
 
 NO_ERR = {'id': 'none', 'arg': 0, 'l': 0}
@@ -77,6 +78,9 @@ def classify_error(exc, token_error_type) -> tuple:
     m = _STAR_EOF.match(mess)
     if m:
         return {'id': 'star_eof', 'arg': int(m.group(1)), 'l': line}, tname, mess
+    m = _EXPECT.match(mess)
+    if m:
+        return {'id': f'expect/{m.group(1)}/{m.group(2)}', 'arg': 0, 'l': line}, tname, mess
     return {'id': 'unknown', 'arg': 0, 'l': line}, tname, mess
 
 
@@ -85,10 +89,46 @@ class Watchdog(Exception):
     (a livelock shows up as an observation with this exception type, which no specification accepts)."""
 
 
-WATCHDOG_S = 20.0
+WATCHDOG_S = 5.0
+_watchdog_hits = [0]
+
+
+class StepLimit(Exception):
+    """Raised inside Tokenizer._next_char when one tokenizer has asked for more characters than any
+    linear bound allows (a livelock): logged as an observation, which no specification accepts."""
+
+
+STEP_LIMIT = [1 << 60]
+_installed = [False]
+
+
+def install_step_counter() -> None:
+    """Wrap Tokenizer._next_char from outside (in this process only): every tokenizer counts its
+    cursor reads in _verif_calls and raises StepLimit beyond STEP_LIMIT[0]."""
+    if _installed[0]:
+        return
+    from srctools.tokenizer import Tokenizer
+    orig = Tokenizer._next_char
+
+    def counted(self):
+        n = self.__dict__.get('_verif_calls', 0) + 1
+        self.__dict__['_verif_calls'] = n
+        if n > STEP_LIMIT[0]:
+            raise StepLimit(f'{n} cursor reads')
+        return orig(self)
+
+    Tokenizer._next_char = counted
+    _installed[0] = True
+
+
+def set_step_limit(nchars: int) -> None:
+    STEP_LIMIT[0] = 4 * (nchars + 2) + 16
 
 
 def _alarm(signum, frame):
+    _watchdog_hits[0] += 1
+    if _watchdog_hits[0] > 5:
+        raise SystemExit('MACHINERY: more than 5 observations hit the watchdog')
     raise Watchdog(f'no result after {WATCHDOG_S} s')
 
 
@@ -104,16 +144,20 @@ def watchdog_off() -> None:
 
 
 def observe(tok, error_type, extra_eof: int = 2, limit: int = 1_000_000) -> dict:
-    """Call the tokenizer until EOF (then extra_eof more times) or until it raises."""
+    """Call the tokenizer until EOF (then extra_eof more times) or until it raises.
+    n = cursor reads (_next_char calls) up to the first EOF token / the error."""
     toks = []
     err, etype, msg = NO_ERR, '', ''
     eofs = 0
+    reads = None
     watchdog_on()
     try:
         while eofs <= extra_eof and len(toks) < limit:
             t, v = tok()
             toks.append({'t': t.name, 'v': cps(v), 'l': tok.line_num})
             if t.name == 'EOF':
+                if not eofs:
+                    reads = tok.__dict__.get('_verif_calls', 0)
                 eofs += 1
             elif eofs:
                 break   # something after EOF: logged as is, the specification rejects it
@@ -123,16 +167,20 @@ def observe(tok, error_type, extra_eof: int = 2, limit: int = 1_000_000) -> dict
         err, etype, msg = classify_error(exc, error_type)
     finally:
         watchdog_off()
-    return {'toks': toks, 'err': err, 'etype': etype, 'msg': msg}
+    if reads is None:
+        reads = tok.__dict__.get('_verif_calls', 0)
+    return {'toks': toks, 'err': err, 'etype': etype, 'msg': msg, 'n': reads}
 
 
-def tokenize(data, o: dict, *, error_type=None, extra_eof: int = 2) -> dict:
+def tokenize(data, o: dict, *, error_type=None, extra_eof: int = 2, nchars: int = 1 << 40) -> dict:
     from srctools.tokenizer import Tokenizer, TokenSyntaxError
     error_type = error_type or TokenSyntaxError
+    install_step_counter()
+    set_step_limit(nchars)
     tok = Tokenizer(data, None, error_type, **opts_kwargs(o))
     return observe(tok, error_type, extra_eof)
 
 
 def outcome_key(out: dict) -> str:
     import json
-    return json.dumps([out['toks'], out['err'], out['etype'], out['msg']], separators=(',', ':'))
+    return json.dumps([out['toks'], out['err'], out['etype'], out['msg'], out.get('n')], separators=(',', ':'))
